@@ -129,8 +129,8 @@ MUTANTS["C17"] = [
       "style.border_style = BorderStyle.none()\n        style.border_style.line_hc_char = \"=\"", expect="C17-R1"),
     M("ascii-shares-cache", TST, "style.border_style = copy(BorderStyle.ascii())", "style.border_style = BorderStyle.ascii()", expect="C17-R1"),
     M("f14-regression", HRS,
-      "        try:\n            return super(HelpResolver, self).create_resolved_command(result)\n        finally:\n            if not was_lenient:\n                config.disable_lenient_args_parsing()\n",
-      "        resolved = super(HelpResolver, self).create_resolved_command(result)\n        if not was_lenient:\n            config.disable_lenient_args_parsing()\n        return resolved\n",
+      "            return super(HelpResolver, self).create_resolved_command(result)\n        finally:\n            if not was_lenient:\n                config.disable_lenient_args_parsing()\n",
+      "            resolved = super(HelpResolver, self).create_resolved_command(result)\n        finally:\n            pass\n        if not was_lenient:\n            config.disable_lenient_args_parsing()\n        return resolved\n",
       expect="C17-R2"),
     M("never-disabled", HRS, "            if not was_lenient:\n                config.disable_lenient_args_parsing()\n", "            pass\n", expect="C17-R2"),
     M("f16-regression", XTR, "cache_key = (frame, 2, 2, io.supports_utf8())", "cache_key = (frame, 2, 2)", expect="C17-R4"),
